@@ -93,7 +93,43 @@ def collect():
     d('serverStructure', 'List (String × Bool × String × Bool × Bool × Bool × Bool)',
       lean_list('(%s, %s, %s, %s, %s, %s, %s)' % (lean_str(r[0]), 'true' if r[1] else 'false', lean_str(r[2]),
                                                *('true' if x else 'false' for x in r[3:])) for r in server_structure()))
+    # C08/C13/C14: the per-framing constants of the sync transaction manager (introspected on stub clients; the
+    # minimum header read sizes of `_recv` are literals inside the method body: read by ast)
+    d('txnSizes', 'List (String × Nat × Nat × Nat)', lean_list('(%s, %d, %d, %d)' % (lean_str(n), b, e, m) for n, b, e, m in txn_sizes()))
+    from pymodbus.constants import Defaults as _D
+    d('defaultRetries', 'Nat', str(_D.Retries))
+    d('defaultRetryOnEmpty', 'Bool', 'true' if _D.RetryOnEmpty else 'false')
+    d('defaultRetryOnInvalid', 'Bool', 'true' if _D.RetryOnInvalid else 'false')
+    d('defaultReadSize', 'Nat', str(_D.ReadSize))
     return out
+
+
+def txn_sizes():
+    """(framer, base_adu_size, exception ADU length, min_size of the first read) for the four stream framings"""
+    import ast
+    import pymodbus.transaction as T
+    from pymodbus.framer.socket_framer import ModbusSocketFramer
+    from pymodbus.framer.rtu_framer import ModbusRtuFramer
+    from pymodbus.framer.ascii_framer import ModbusAsciiFramer
+    from pymodbus.framer.binary_framer import ModbusBinaryFramer
+    tree = ast.parse(open(T.__file__).read())
+    recv = [f for c in tree.body if isinstance(c, ast.ClassDef) and c.name == 'ModbusTransactionManager'
+            for f in c.body if isinstance(f, ast.FunctionDef) and f.name == '_recv'][0]
+    mins = {}
+    for n in ast.walk(recv):
+        if isinstance(n, ast.If) and isinstance(n.test, ast.Call) and getattr(n.test.func, 'id', '') == 'isinstance' \
+                and len(n.body) == 1 and isinstance(n.body[0], ast.Assign) \
+                and getattr(n.body[0].targets[0], 'id', '') == 'min_size' and isinstance(n.body[0].value, ast.Constant):
+            mins[ast.unparse(n.test.args[1])] = n.body[0].value.value
+    rows = []
+    for name, cls in (('tcp', ModbusSocketFramer), ('rtu', ModbusRtuFramer), ('ascii', ModbusAsciiFramer), ('binary', ModbusBinaryFramer)):
+        class _C:
+            pass
+        c = _C()
+        c.framer = cls(None, c)
+        m = T.ModbusTransactionManager(c)
+        rows.append((name, m.base_adu_size, m._calculate_exception_length(), mins.get(cls.__name__, 0)))
+    return rows
 
 
 def server_structure():
